@@ -96,6 +96,20 @@ def run(ctx, rep):
     else:
         rep.violation("ANCHOR", "DryocBox bytes", "to_bytes/from_bytes/from_sealed_bytes not found")
     rep.floor("writer/reader pairs", npairs, 8)
+    # the parsers accept exactly the encodings the writers can produce: minimum length = fixed overhead
+    # (an empty message is a valid box)
+    from ..expr import result_kind_of_ret
+    from ..guards import edge_facts, facts_at, bounds
+    for (ty, m, minimum) in (("dryocbox::DryocBox", "from_bytes", 16), ("dryocbox::DryocBox", "from_sealed_bytes", 48),
+                             ("dryocsecretbox::DryocSecretBox", "from_bytes", 16), ("sign::SignedMessage", "from_bytes", 64)):
+        for f in cm.find_method(prog, ty, m):
+            ef = edge_facts(f, cm.view_info)
+            for b, kind, e in result_kind_of_ret(f):
+                if kind == "err" or b not in f.reachable(0):
+                    continue
+                lo, hi = bounds(("len", 1), facts_at(f, b, ef))
+                rep.ob("FRAMING", "%s::%s|accepts len >= %d" % (ty.split("::")[-1], m, minimum), lo == minimum and hi is None,
+                       "Ok-capable exit at %s requires %s <= len%s" % (f.loc(b), lo, "" if hi is None else " <= %s" % hi), loc=f.loc(b))
     keystream(rep, prog)
     sealnonce(rep, prog)
 
